@@ -302,6 +302,8 @@ def run(tier):
     progexec.check_ffwd_arith(rep)          # the real fast-forward statement of _read_port == `loops` such iterations, never past the edge
     from props import fastloadvc
     fastloadvc.check_fast_load(rep, 'C13')  # ROM fast loading: which bytes land where, registers on exit
+    fastloadvc.crosscheck_fast_load(rep, 'C13')
+    progexec.crosscheck_ffwd(rep, 'C13')
     quick = tier == 'quick'
     n = 16 if quick else 300
     with Pool(common.NCPU) as p:
